@@ -4,4 +4,5 @@ CONSTANTS OFFBYONE = FALSE
   KEYGEN0 = FALSE
   DECRYPTMEMBERS = FALSE
   TRAILERMERGE = FALSE
+  ZEROLENUNKNOWN = FALSE
 CHECK_DEADLOCK FALSE
